@@ -22,7 +22,7 @@ from .clientmodel import client_methods
 RP = "ELEM(" + M + ".routing_rule.routing_parameters)"
 FH = "ELEM(" + M + ".field_headers)"
 KEY = "{" + RP + ".key}"
-FIELD = "{" + RP + ".field}"
+FIELD = "{" + RP + ".disambiguated_field}"   # the attribute read uses the Python spelling; the header key stays raw
 APPEND = "tuple(metadata) + (gapic_v1.routing_header.to_grpc_metadata("
 
 
@@ -172,6 +172,11 @@ def check_python(report):
     r.instance("key")
     r.check("self.to_regex()" in src and "groupindex" in src and "return self.field" in src, p, ky.node.lineno, "RoutingParameter.key",
             "key is the named group of the template, or the field name when there is no template / no named group")
+    dfp = m.func("gapic.schema.wrappers.RoutingParameter.disambiguated_field")
+    rets = [n for n in ast.walk(dfp.node) if isinstance(n, ast.Return)]
+    r.instance("disambiguated_field")
+    r.check(len(rets) == 1 and pmatch("'.'.join((_S_ + '_' if _S_ in utils.RESERVED_NAMES else _S_ for _S_ in self.field.split('.')))", rets[0].value) is not None,
+            p, dfp.node.lineno, ast.unparse(rets[0].value) if rets else "", "each path segment is suffixed iff reserved (dotted routing fields read nested attributes)")
     # routing parameters keep declaration order
     rr = m.func("gapic.schema.wrappers.RoutingRule.try_parse_routing_rule")
     src = ast.unparse(rr.node)
